@@ -81,6 +81,9 @@ def main():
         [(K_LABEL, None, 7), (K_REL, 'BR', 7)],
         [(K_FUNC, None, 4), (K_PROC, None, 4), (K_REL, 'LDAP', 4)],
         [(K_IMM, 'LDAC', None)] * 2,
+        [],                                                      # the empty program
+        [(K_LABEL, None, 0)], [(K_FUNC, None, 4)],               # labels only
+        [(K_LABEL, None, 0), (K_OPR, 'ADD', 0), (K_LABEL, None, 0)], [(K_FUNC, None, 4), (K_DATA, None, None), (K_PROC, None, 4)],   # one name at two addresses
     ]
     L, shapes, results = run_family(ck, 'C10', extra)
     kernels(ck)
